@@ -394,7 +394,7 @@ pub fn run(ctx: &RunCtx) -> i32 {
         println!("VIOLATION property={} replay={}", ctx.id, path);
         return 1;
     }
-    let (stats, failure) = run_sharded(ctx, "transfer", ctx.tier.pick(6000, 60_000), strategy, test);
+    let (stats, failure) = run_sharded(ctx, "transfer", ctx.tier.pick(6000, 300_000), strategy, test);
     write_evidence(ctx, "exploration", RULE, &stats, json!({"regress_replayed": reg.replayed}), &["copy_dir/move_dir into the source's own subtree and wrong-typed transfer sources are not generated", "a transfer that fails for a missing/non-directory destination parent or missing source re-synchronises the models (effect unspecified), but both trees must stay well-formed"], failure.is_some() as u32);
     finish(ctx, &stats, &failure, &[("distinct_nontrivial", 30), ("pair:same_instance", 100), ("pair:two_instances_one_backend", 100), ("pair:two_backends", 100), ("nontrivial_cross_instance", 10)])
 }
